@@ -64,6 +64,7 @@ def gen_case(rng, idx, tier):
         "answer": rng.choice(["y\n", "y\n", "n\n", "", "yes\n", "N\n"]),
         "hashing": rng.random() < 0.5,
         "protect_shape": rng.choice(["list", "set", "tuple"]),
+        "from": rng.choice(["root", "root", "sub", "elsewhere"]),
     }
 
 
@@ -119,21 +120,37 @@ def run_case(case):
             if t["name"] in selected:
                 prot = {model.resolve(root, spell(k, f).replace("@ROOT@", root)) for k, f in t["protect"]}
                 allowed_attempts |= {p for p in model.res_outs(t) if p not in prot}
-        before = gen.snapshot(root)
-        args = ["clean"] + (["--all"] if case["all"] else []) + (["-f"] if case["force"] else []) + case["patterns"]
+        # invoking directory: project root, a sub-directory (parent search) or an unrelated directory with -f;
+        # files with the SAME relative names as the outputs exist below the invoking directory (decoys)
+        cwd, pre = root, []
+        if case.get("from") == "sub":
+            cwd = os.path.join(root, "subdir", "deeper")
+        elif case.get("from") == "elsewhere":
+            cwd = os.path.join(proj.base, "elsewhere")
+            pre = ["-f", os.path.join(root, "workflow.py")]
+        os.makedirs(cwd, exist_ok=True)
+        if cwd != root:
+            for t in ts:
+                for o in t["outs"]:
+                    dp = os.path.join(cwd, o)
+                    os.makedirs(os.path.dirname(dp), exist_ok=True)
+                    with open(dp, "w") as fh:
+                        fh.write("decoy\n")
+        before = gen.snapshot(proj.base, skip=("sim/",))
+        args = pre + ["clean"] + (["--all"] if case["all"] else []) + (["-f"] if case["force"] else []) + case["patterns"]
         env = cli.env_for(proj.simdir, ("slurm",))
-        r = cli.gwf(root, args, env, stdin=case["answer"])
-        after = gen.snapshot(root)
+        r = cli.gwf(cwd, args, env, stdin=case["answer"])
+        after = gen.snapshot(proj.base, skip=("sim/",))
         res.mon("clean_runs")
         ctx = {"args": args, "answer": case["answer"], "selected": sorted(selected), "workflow": gen.render_workflow(variant)[:1500]}
         if r.crashed or r.timed_out or (confirmed and r.rc != 0) or (not confirmed and r.rc not in (1,)):
             res.violation("crash", "gwf %s exited %s (confirmed=%s)" % (" ".join(args), r.rc, confirmed), **cli.crash_witness(r), **ctx)
             return res
         d = gen.snap_diff(before, after)
-        removed = {os.path.join(root, p) for p in d["removed"]}
+        removed = {os.path.join(proj.base, p) for p in d["removed"]}
         res.mon("files_compared", len(before))
         res.obs("clean", {"args": args, "answer": case["answer"], "removed": sorted(d["removed"]), "expected_removable": sorted(os.path.relpath(x, root) for x in removable) if confirmed else [], "os_remove_events": len([e for e in r.audit if e["ev"] == "os.remove"])})
-        other = [p for p in d["added"] + d["modified"] + d["touched"] if p not in (".gwf/spec-hashes.json", ".gwf/spec-hashes.json.tmp")]
+        other = [p for p in d["added"] + d["modified"] + d["touched"] if p not in ("proj/.gwf/spec-hashes.json", "proj/.gwf/spec-hashes.json.tmp")]
         removes = [e for e in r.audit if e["ev"] == "os.remove"]
         res.mon("remove_events_checked", len(removes) + 1)
         if not confirmed:
@@ -151,7 +168,7 @@ def run_case(case):
             if other:
                 res.violation("clean-side-effect", "clean changed other files: %s" % other, **ctx)
             for e in removes:
-                p = model.resolve(root, e["args"][0])
+                p = model.resolve(cwd, e["args"][0])
                 if p not in allowed_attempts:
                     res.violation("deleted-wrong-file", "clean called os.remove on %s, not an unprotected output of a selected target" % p, **ctx)
             hashes = proj.state_files().get("spec-hashes.json")
@@ -164,6 +181,6 @@ def run_case(case):
                 res.violation("hash-records", "spec-hashes after clean: %s; expected records for %s" % (sorted(hashes) if isinstance(hashes, dict) else hashes, sorted(want)), hashing=case["hashing"], **ctx)
         inout = any(any(o in t2["ins"] for t2 in ts) for t in ts for o in t["outs"] if case["ticks"].get(o))
         endout = any(t["name"] in ends and any(case["ticks"].get(o) for o in t["outs"]) for t in ts)
-        res.sig = (case["all"], case["force"], bool(case["patterns"]), case["answer"].strip(), sorted({k for t in ts for k, _ in t["protect"]}), case["hashing"])
+        res.sig = (case["all"], case["force"], bool(case["patterns"]), case["answer"].strip(), sorted({k for t in ts for k, _ in t["protect"]}), case["hashing"], case.get("from"))
         res.nontrivial = protected_existing and endout and inout
     return res
